@@ -317,7 +317,7 @@ def gen_across(rng):
 
 
 def build_scripts(ctx, prop, tier):
-    rng = ctx.rng
+    rng = ctx.sub_rng("fam_detect.1")
     scripts = []
     n = 120 if tier == "quick" else 2500
     if prop == "C09":
@@ -458,7 +458,7 @@ def run(ctx):
     cfgpath = {}
     if prop in ("C07", "C08", "C15"):
         import fam_e2e
-        rng2 = ctx.rng
+        rng2 = ctx.sub_rng("fam_detect.2")
         cfgs = []
         for i in range(40 if tier == "quick" else 400):
             T = rng2.choice([100, 2900, 30000])
@@ -541,13 +541,13 @@ def run(ctx):
         # with a failing stop) in front of the real detector; whatever the next frame contains, it has nothing to be
         # compared with
         import fam_proc
-        pscripts = [fam_proc.gen_random_script(ctx.rng, "C12") for _ in range(150 if tier == "quick" else 2500)]
+        pscripts = [fam_proc.gen_random_script(ctx.sub_rng("fam_detect.3"), "C12") for _ in range(150 if tier == "quick" else 2500)]
         for sc in pscripts:      # make resets frequent and let the scene change right after them
             st2 = []
             for st in sc["steps"]:
                 st2.append(st)
-                if st["a"] == "frame" and ctx.rng.random() < 0.08:
-                    st2.append(dict(a="reset", mStop=ctx.rng.random() < 0.5))
+                if st["a"] == "frame" and ctx.sub_rng("fam_detect.4").random() < 0.08:
+                    st2.append(dict(a="reset", mStop=ctx.sub_rng("fam_detect.5").random() < 0.5))
                     st2.append(dict(a="frame", motion=True, win=True, disk=True))
             sc["steps"] = st2
         ptrace = fam_proc.drive(ctx, pscripts, "c09proc")
@@ -565,7 +565,7 @@ def run(ctx):
         # the detector as the real MotionProcessor drives it (Process / Reset, with storage stop failures on resets that
         # interrupt a recording), optionally through the real ThrottledRecorder (cuts and mid-trigger restarts).
         # C15 last clause: the background and threshold stored with a recording are the ones in force at its trigger.
-        rng = ctx.rng
+        rng = ctx.sub_rng("fam_detect.6")
         cs = []
         for i in range(60 if tier == "quick" else 1200):
             c = rand_cfg(rng, dyn=(prop == "C15" or (prop == "C09" and rng.random() < 0.5)))
